@@ -450,9 +450,9 @@ def dump_particle(e, depth, name=None):
     if isinstance(e, Group):
         return dict(k="group", n=name, p=dump_particle(e.child, depth, None), min=int(e.min_occurs), max=occj(e.max_occurs))
     kind = "seq" if isinstance(e, Sequence) else ("choice" if isinstance(e, Choice) else "all")
-    # Sequence / All decode over the *flattened* `elements` (non-repeating nested indicators dissolve into their
-    # members); Choice decodes over `elements_nested`
-    src = e.elements_nested if kind == "choice" else e.elements
+    # Sequence and Choice decode over `elements_nested` (a non-repeating nested particle is decoded as a particle and its
+    # fields merged: fix F33); All collects by the tags of its flattened `elements`
+    src = e.elements if kind == "all" else e.elements_nested
     ps = [dump_particle(c, depth, n) for n, c in src]
     d = dict(k=kind, n=name, ps=ps, min=int(e.min_occurs), max=occj(e.max_occurs))
     if kind == "all":
